@@ -34,12 +34,7 @@ Definition unused_is_ignored : Prop :=
     | LYieldStar _ false b' => ignores b'
     | _ => True
     end.
-(* H2 (the carved-out window, see genobj_window_refuted): the body does not call its own generator object while it
-   handles the failure of GetIterator on a yield* operand *)
-Definition no_reentry_after_iterfail : Prop := forall b e, reent_free (bstep b (BIterFail e)).
-
 Hypothesis Hunused : unused_is_ignored.
-Hypothesis Hwin : no_reentry_after_iterfail.
 
 (* ---------- the simulation relation ---------- *)
 Definition R (g : gobj) (s : sobj) : Prop :=
@@ -89,7 +84,7 @@ Qed.
 (* what the recursive knot must provide *)
 Definition RB (resume : gobj -> binput V -> res3) (body : sobj -> binput V -> sres3) : Prop :=
   (forall g s i,
-      (gstate g = GExecuting \/ (gstate g = GCompleted /\ reent_free (bstep (gbody g) i))) ->
+      gstate g = GExecuting ->
       gdeleg g = None -> gbody g = sbody s -> sstate s = SExecuting -> sdeleg s = None ->
       sim3 (resume g i) (body s i)) /\
   (forall g i i', bstep (gbody g) i = bstep (gbody g) i' -> resume g i = resume g i').
@@ -245,7 +240,7 @@ Proof.
     + change (sim3 (g_next (g_set_deleg (mkG (susp w) (gdeleg g) b) (Some it)) undef)
                    (s_yieldstar (mkS SExecuting (Some it) b) it (KNormal undef))).
       apply (next_deleg_sim w); simp_g; auto. intros ->. exact Hig.
-    + change (sim3 (resume (g_set_state (g_set_deleg (mkG (susp w) (gdeleg g) b) None) GCompleted) (BIterFail e))
+    + change (sim3 (resume (g_set_state (g_set_deleg (mkG (susp w) (gdeleg g) b) None) GExecuting) (BIterFail e))
                    (body (mkS SExecuting None b) (BIterFail e))).
       apply (proj1 HRB); simp_g; auto.
   - simpl. sim_done. auto.
@@ -262,16 +257,13 @@ Proof.
   - split.
     + intros g s i Hst Hd Hb Hs Hsd. simpl. rewrite <- Hb.
       assert (Et : run_tree (g_reenter g) (bstep (gbody g) i) = run_tree s_reenter (bstep (gbody g) i)).
-      { destruct Hst as [He|[Hc Hf]].
-        - apply run_tree_ext. intros c. unfold Model.g_reenter. rewrite He. reflexivity.
-        - apply run_tree_reent_free; auto. }
+      { apply run_tree_ext. intros c. unfold Model.g_reenter. rewrite Hst. reflexivity. }
       rewrite Et. destruct (run_tree s_reenter (bstep (gbody g) i)) as [l lf] eqn:E.
       apply pre_sim. apply leaf_sim; auto.
       apply run_tree_leaf_of in E. specialize (Hunused _ _ _ E).
       destruct lf as [v [|] b|src [|] b|v b|e b]; auto.
     + intros g i i' E. simpl. rewrite E. reflexivity.
 Qed.
-(* the window case of leaf_sim needs Hwin: supplied here *)
 
 Theorem genobj_refines_spec : forall n b hist,
   outs (run (g_call n) (@ginit B It b) hist) = outs (run (s_call n) (@sinit B It b) hist).
@@ -337,22 +329,6 @@ Proof.
 Qed.
 
 End GenProofs.
-
-(* ---------- the carved-out window is real: a witness on which I and S differ ---------- *)
-Definition wit_bstep (b : nat) (i : binput nat) : btree nat nat unit unit :=
-  match b, i with
-  | 0, BStart => BYieldStar (inr 7) true 1                 (* yield* <non-iterable>: GetIterator throws 7 *)
-  | 1, BIterFail _ =>                                      (* catch (e) { r = g.next(0); return r.done ? 100 : ... } *)
-      BReent (RNext 0) (fun r => match r with CRes _ _ => BDone 100 2 | CErr _ => BDone 200 2 end)
-  | _, _ => BDone 0 2
-  end.
-Definition wit_istep (_ : unit) (_ : imeth) (_ : nat) : icall nat unit unit := INonObj.
-Definition wit_has (_ : unit) (_ : imeth) : bool := false.
-
-Lemma genobj_window_refuted :
-  outs (run (g_call 999 0 wit_bstep wit_istep wit_has 5) (ginit 0) [RNext 0])
-  <> outs (run (s_call 999 0 wit_bstep wit_istep wit_has 5) (sinit 0) [RNext 0]).
-Proof. vm_compute. discriminate. Qed.
 
 (* non-vacuity of genobj_refines_spec: a body that yields, delegates to an iterator without throw, and is driven
    by next / throw / return: both sides give the same non-trivial answers *)
